@@ -1,6 +1,7 @@
 package main
 
 import (
+	"go/token"
 	"fmt"
 	"go/types"
 	"strings"
@@ -212,6 +213,58 @@ func (r *Run) accessCheck(st *State, fr *Frame, a *Addr, write bool, in ssa.Inst
 			return
 		}
 		name := fmt.Sprintf("%s/own:%s", e.fnName[fr.Fn], field)
+		// `init-once LOCK : fields…` — lazy initialisation of a frozen field of a shared object: allowed with LOCK held
+		// exclusively while the field still has its zero value (set once, never replaced)
+		if b := e.cs.Funcs[e.fnName[fr.Fn]]; b != nil {
+			for _, cl := range b.All("init-once") {
+				named := false
+				fieldsPart, condPart := cl.Expr, ""
+				if i := strings.Index(cl.Expr, "|"); i >= 0 {
+					// `init-once LOCK : fields | cond` — cond (evaluated before the store) replaces "the field is still unset"
+					fieldsPart, condPart = cl.Expr[:i], strings.TrimSpace(cl.Expr[i+1:])
+				}
+				for _, w := range strings.Fields(fieldsPart) {
+					if w == field {
+						named = true
+					}
+				}
+				if !named || len(cl.Words) < 1 {
+					continue
+				}
+				var ownerT types.Type
+				if a.Owner != nil {
+					ownerT = a.Owner
+				} else if obj := e.pkg.Pkg.Scope().Lookup(owner); obj != nil {
+					ownerT = obj.Type()
+				}
+				goal := False
+				if ownerT != nil {
+					if key, ok := r.lockKeyOf(st, ownerT, owner, cl.Words[0], a.Ref); ok {
+						var ds []T
+						for _, l := range st.Locks {
+							if l.Mode == LockW {
+								ds = append(ds, Eq(l.Key, key))
+							}
+						}
+						cur, ok1 := e.readLoc(st, a.Region, a.FieldT, a.Ref).(T)
+						zero, ok2 := e.zeroVal(st, a.FieldT).(T)
+						if condPart != "" {
+							if x, err := parseSpec(condPart); err != nil {
+								e.fail("%v", err)
+							} else if len(ds) > 0 {
+								c := e.specCtx(st, fr)
+								c.inLoop = true
+								goal = And(Or(ds...), c.boolTerm(x))
+							}
+						} else if ok1 && ok2 && len(ds) > 0 {
+							goal = And(Or(ds...), Eq(cur, zero))
+						}
+					}
+				}
+				e.emitWith(st, name, "", nil, goal, "lazy initialisation of frozen field "+a.Region+": "+cl.Words[0]+" held exclusively and the field still unset", e.posOf(in), []string{"C11"}, cl)
+				return
+			}
+		}
 		e.emitWith(st, name, "", nil, False, "write to frozen field "+a.Region+" only before the object is shared", e.posOf(in), []string{"C11"}, nil)
 		return
 	case "owned":
@@ -951,6 +1004,7 @@ func (r *Run) send(st *State, fr *Frame, x *ssa.Send) []*State {
 	e := r.e
 	ch := e.asTerm(r.val(st, fr, x.Chan), SChan)
 	v := r.val(st, fr, x.X)
+	r.blockingPoint(st, fr, x, "send", nil)
 	r.sendEvent(st, fr, ch, v, x)
 	return nil
 }
@@ -972,6 +1026,7 @@ func (r *Run) sendEvent(st *State, fr *Frame, ch T, v Val, in ssa.Instruction) {
 func (r *Run) recv(st *State, fr *Frame, x *ssa.UnOp) []*State {
 	e := r.e
 	ch := e.asTerm(r.val(st, fr, x.X), SChan)
+	r.blockingPoint(st, fr, x, "receive", []T{ch})
 	var et types.Type
 	if c, ok := coreType(x.X.Type()).(*types.Chan); ok {
 		et = c.Elem()
@@ -1119,6 +1174,64 @@ func (r *Run) closeChan(st *State, fr *Frame, ch T, in ssa.Instruction) []*State
 // assumeChanMsg: message invariant of package-created channels (declared with `chan` clauses).
 func (r *Run) assumeChanMsg(st *State, ch T, v Val, et types.Type) {}
 
+// blockingPoint: `cancellable label : chan-expr [; except SITE...]` in the block of a function — every operation of
+// the function's own body that can block indefinitely (a select without default, a plain send, a plain receive) must be
+// a select with a receive case on the named channel (e.g. ctxdone(ctx)): the function cannot outlive the cancellation
+// signal at any of its waits. cases holds the channels received from (a plain receive of the channel itself qualifies); nil for a plain send.
+func (r *Run) blockingPoint(st *State, fr *Frame, in ssa.Instruction, kind string, cases []T) {
+	e := r.e
+	blk := e.cs.Funcs[e.fnName[fr.Fn]]
+	if blk == nil || r.ownClausesOff(st, fr) {
+		return
+	}
+	for _, cl := range blk.All("cancellable") {
+		x, err := parseSpec(cl.Expr)
+		if err != nil {
+			e.fail("%v", err)
+			continue
+		}
+		c := e.clauseCtx(st, fr, nil)
+		c.inLoop = true
+		want := c.coerceTo(c.eval(x), SChan)
+		goal := False
+		var ds []T
+		for _, ch := range cases {
+			ds = append(ds, Eq(ch, want))
+		}
+		if len(ds) > 0 {
+			goal = Or(ds...)
+		}
+		ord := e.blockOrdinal(fr.Fn, in)
+		e.emitWith(st, fmt.Sprintf("%s/cancellable:%s@wait#%d", e.fnName[fr.Fn], cl.Label(), ord), "", nil, goal,
+			kind+" at "+e.posOf(in)+" also waits for "+cl.Expr, e.posOf(in), cl.Props, cl)
+	}
+}
+
+// blockOrdinal: ordinal of a potentially blocking instruction among those of its function (block order).
+func (e *Engine) blockOrdinal(fn *ssa.Function, in ssa.Instruction) int {
+	n := 0
+	for _, b := range fn.Blocks {
+		for _, i := range b.Instrs {
+			is := false
+			switch x := i.(type) {
+			case *ssa.Send:
+				is = true
+			case *ssa.UnOp:
+				is = x.Op == token.ARROW
+			case *ssa.Select:
+				is = x.Blocking
+			}
+			if is {
+				if i == in {
+					return n
+				}
+				n++
+			}
+		}
+	}
+	return n
+}
+
 func (r *Run) selectOp(st *State, fr *Frame, x *ssa.Select) []*State {
 	e := r.e
 	// result tuple: (index int, recvOk bool, r_0 T_0, ... r_n-1 T_n-1) for the receive states
@@ -1156,6 +1269,18 @@ func (r *Run) selectOp(st *State, fr *Frame, x *ssa.Select) []*State {
 	first := 0
 	if !x.Blocking {
 		first = -1
+	}
+	if x.Blocking {
+		var rc []T
+		for _, sc := range x.States {
+			if sc.Dir == types.RecvOnly {
+				rc = append(rc, e.asTerm(r.val(st, fr, sc.Chan), SChan))
+			}
+		}
+		if rc == nil {
+			rc = []T{}
+		}
+		r.blockingPoint(st, fr, x, "select", rc)
 	}
 	for idx := first + 1; idx < n; idx++ {
 		s := st.clone()
